@@ -41,7 +41,7 @@ CHECKS = {
          "Every function and operator application over the pools (every arity admitted, one below and one above) is evaluated by xml_xpath::query and by the reference evaluator; values compare exactly (numbers bitwise, NaN canonical).",
          "Trusts mc/src/model/xpath.rs (number <-> string conversions, substring rounding formula, round tie rule, comparison coercions) as the reading of XPath 1.0 sections 3.4, 3.5 and 4; strings outside the pool are not covered.",
          "DESIGN.md §5 C09"),
- "C10": ("bounded-exhaustive namespace layouts (20 slots over a 4-element skeleton, at most k non-default, namespace-well-formed only) x prefix renamings and reversed attribute order x 8 caller binding sets; expanded names, in-scope sets and name-test results against scope resolution on the abstract document",
+ "C10": ("bounded-exhaustive namespace layouts (20 slots over a 4-element skeleton, at most k non-default, namespace-well-formed only) x prefix renamings and reversed attribute order x 8 caller binding sets; expanded names, in-scope sets and name-test results against scope resolution on the abstract document; plus 57 document pairs in which an xmlns / xmlns:p / xmlns:q attribute is declared in the DTD (#IMPLIED, #REQUIRED, default, #FIXED) against the equivalent document without a DTD (differential: names, in-scope sets, 22 scalar queries)",
          "Every element's and attribute's expanded name, every element's in-scope namespace set, and 25-35 name tests / name functions per binding set are compared with the reference on every enumerated layout; consistent prefix renamings of the document and of the caller's bindings must not change results.",
          "Trusts the scope resolution in mc/src/model/xpath.rs XTree::from_adoc; layouts beyond k deviations and other skeletons are not covered; xq --setns is exercised in C17.",
          "DESIGN.md §5 C10"),
